@@ -294,6 +294,12 @@ var errB = errors.New("errB")
 var faultPlan [8][3]int
 var faultCnt [8]int
 
+// SetFaultPlan installs the fault plan of the next Parse (harness hook of the catalogue).
+func SetFaultPlan(p [8][3]int) {
+	faultPlan = p
+	faultCnt = [8]int{}
+}
+
 func fault(k int) int {
 	j := faultCnt[k]
 	faultCnt[k]++
@@ -308,6 +314,9 @@ INIT_STATE = '''
 type box struct{ p *int }
 
 func (b box) Clone() any { v := *b.p; return box{&v} }
+
+// NewBox returns a fresh Cloner value for InitState (harness hook of the catalogue).
+func NewBox() any { return box{new(int)} }
 
 func stInt(c *current, k string) int {
 	switch v := c.state[k].(type) {
